@@ -1,0 +1,18 @@
+//go:build verif
+
+// Verification hooks (build tag `verif` only). Add-only; no behaviour change.
+
+package the
+
+import (
+	"github.com/AliceO2Group/Control/common/event"
+	"github.com/AliceO2Group/Control/common/event/topic"
+)
+
+// SetEventWriterForVerif installs w as the writer EventWriterWithTopic(t) returns,
+// so that published events can be captured in-process.
+func SetEventWriterForVerif(t topic.Topic, w event.Writer) {
+	mu.Lock()
+	defer mu.Unlock()
+	writers[t] = w
+}
